@@ -369,7 +369,7 @@ func (c *Ctx) atCallAsserts(fr *Frame, st *State, site ssa.Instruction, callee *
 		rel = callee.RelString(callee.Pkg.Pkg)
 	}
 	for _, a := range top.con.Asserts {
-		if a.Where != "call "+rel {
+		if a.Where != "call "+rel && a.Where != "call "+callee.String() {
 			continue
 		}
 		env := &Env{c: c, fr: top, fn: top.fn, st: st, old: top.old, vars: map[string]*Val{}, fd: top.fd}
@@ -655,7 +655,7 @@ func (c *Ctx) builtinAppend(fr *Frame, st *State, site *ssa.Call, args []*Val, r
 	fits := c.define("fits", "Bool", app("<=", nl, sc))
 	fref := c.allocRef(st, "grown")
 	ncap := c.fresh("acap", "Int")
-	c.assumeAlways(and(app(">=", ncap, nl), app("<=", ncap, "4611686018427387904")))
+	c.assumeAlways(and(app(">=", ncap, nl), app("<=", ncap, maxObjSize)))
 	rref := c.define("aref", "Int", ite(fits, sr, fref))
 	roff := c.define("aoff", "Int", ite(fits, so, "0"))
 	rcap := c.define("acap", "Int", ite(fits, sc, ncap))
